@@ -96,7 +96,12 @@ func (e *Exec) doAssert(c *Node, label, knownID string, region *Node) {
 	listed := knownID != "" && e.eng.known.Listed(knownID)
 	if listed {
 		in := e.tb.BAnd(region, e.tb.BNot(c))
-		v, _, _, _ := e.queryAt(len(e.pc), nil, in, false)
+		var v Verdict
+		if in.IsTrue() {
+			v = Sat // the path itself is feasible: no query needed for a concrete failure inside the region
+		} else {
+			v, _, _, _ = e.queryAt(len(e.pc), nil, in, false)
+		}
 		if v == Sat {
 			e.knowns = append(e.knowns, knownID)
 		} else if v == Unknown {
